@@ -7,6 +7,52 @@ import "verif/sim/core"
 var realTerminal = []string{"gmrtd iso7816.NfcSession", "gmrtd iso7816.SecureMessaging", "gmrtd tlv", "gmrtd cryptoutils"}
 
 func RegisterAll() {
+	protoReal := []string{"gmrtd pace / bac / chipauth / activeauth, iso7816 (NfcSession, SecureMessaging), document constructors, password, mrz, cryptoutils"}
+	protoSim := []string{"SimChip protocol stack (own KDF, MACs, paddings, tokens, mapping, signatures)", "on-path adversary / impostor chip", "seeded terminal randomness via crypto/rand.Reader"}
+	core.Register(&core.Check{
+		Property: "C04",
+		Level:    "exploration",
+		Rule: "real pace.DoPACE over a real NfcSession against the reference chip: every cell (parameter id 8..18) x (3DES, AES-128/192/256) x (GM, CAM) genuine at least 3 times incl. ground edge slices (shared x-coordinate with 1 or 2 leading zero octets, chip public coordinate with a leading zero octet), passwords from all MRZ layouts via mrz/mrzi/dg1 routes and CAN, several and unsupported PACE infos in seeded order; then faulted twins: wrong password, or exactly one chip message field altered by an on-path adversary (encrypted nonce, mapping key: other point / reflection / invalid / infinity / omitted, agreement key likewise, token flipped / truncated / omitted, encrypted CAM data flipped / omitted / extended); " +
+			"distinct_nontrivial counts distinct (mode, cell, password route, layout, junk infos, grinding, outcome) tuples",
+		Engines:        []core.Engine{ProtoEngine{"pace"}},
+		Assumptions:    []string{"nonce length 16 octets for every suite", "shared secret = fixed-length x-coordinate (TR-03111 FE2OS)"},
+		RealComponents: protoReal, SimComponents: protoSim,
+		RequiredProbes: []string{"shared_secret_leading_zero", "public_coordinate_leading_zero", "unsupported_pace_infos_present"},
+		QuickBudget:    100, ThoroughBudget: 1800,
+	})
+	core.Register(&core.Check{
+		Property: "C05",
+		Level:    "exploration",
+		Rule: "real bac.DoBAC against the reference chip personalised from the same MRZ (TD1/TD2/TD3, short document numbers with fillers, extended document numbers, every password route), all randoms from the seed incl. counters about to wrap followed by protected traffic across the wrap; hostile 40-byte answers to EXTERNAL AUTHENTICATE: all 320 single-bit mutations (enumerated), cryptogram under another MRZ's keys, genuine cryptogram of another run, correct MAC over a wrong RND.IFD / RND.IC echo or swapped echoes (adversary knowing the keys), wrong lengths, zeros, error status, wrong password; " +
+			"distinct_nontrivial counts distinct (mode, bit, layout, route, document number length, outcome) tuples",
+		Engines:        []core.Engine{ProtoEngine{"bac"}},
+		Assumptions:    []string{"reference chip derives K_seed from its own MRZ_information code (check digits included)"},
+		RealComponents: protoReal, SimComponents: protoSim,
+		RequiredProbes: []string{"ssc_about_to_wrap", "extended_document_number", "document_number_with_fillers"},
+		QuickBudget:    60, ThoroughBudget: 900,
+	})
+	core.Register(&core.Check{
+		Property: "C06",
+		Level:    "exploration",
+		Rule: "real chipauth.DoChipAuth inside an installed session against the key-holding reference chip for every curve (11) x named/explicit parameters x arrangements {info missing -> MSE:Set KAT, one info, key id, two keys with the second selected, two suites} x suites, incl. terminal ephemerals ground so that the shared secret starts with a zero octet; then impostor chips without the private key (own key pair behind the genuine DG14, no key switch, unprotected 9000 to everything, replay of a transcript recorded against another terminal ephemeral); the PACE-CAM leg is covered by the pace engine (C04 check) and the hostile-chip engine (C02 check); " +
+			"distinct_nontrivial counts distinct (mode, CA arrangement, previous suite, outcome) tuples",
+		Engines:        []core.Engine{ProtoEngine{"ca"}, ProtoEngine{"pace"}},
+		Assumptions:    []string{"by construction an impostor cannot know the shared secret"},
+		RealComponents: protoReal, SimComponents: protoSim,
+		RequiredProbes: []string{"shared_secret_leading_zero", "suite_inferred_set_kat"},
+		QuickBudget:    100, ThoroughBudget: 1800,
+	})
+	core.Register(&core.Check{
+		Property: "C07",
+		Level:    "exploration",
+		Rule: "real activeauth.DoActiveAuth inside an installed session against the reference signer: RSA moduli 1024..4096 x trailers SHA-1/224/256/384/512 x chip-chosen M1 (random, zeros, FF, leading zeros), ECDSA on every curve in plain and DER form, caller-supplied challenge in half the runs; then an adversarial chip answer: bit flips, signature over another challenge (relay), by another key, truncated / extended, r or s zero / = n / + n, n-s (malleable, valid), digest over M1 only, unknown or mismatching trailer, random bytes, empty, DER for a plain key and DER with trailing bytes; RSA moduli of 1027/1030/2045/2047 bits for soundness only; challenge plumbing is additionally checked in the e2e and store engines; " +
+			"distinct_nontrivial counts distinct (mode, key, supplied, accepted, reference-valid) tuples",
+		Engines:        []core.Engine{ProtoEngine{"aa"}},
+		Assumptions:    []string{"acceptance is demanded only for genuine responses with moduli whose bit length is a multiple of 8 (DESIGN.md 6.7 scope note)", "an adversarial response may be accepted iff the reference verifier confirms it is a valid signature by the DG15 key over exactly the challenge sent (signature malleability never alarms)", "ISO/IEC 9796-2 min(s, n-s) signatures are not generated"},
+		RealComponents: protoReal, SimComponents: protoSim,
+		RequiredProbes: []string{"adversarial_but_valid_accepted"},
+		QuickBudget:    100, ThoroughBudget: 1800,
+	})
 	core.Register(&core.Check{
 		Property: "C02",
 		Level:    "exploration",
